@@ -503,6 +503,13 @@ def r8(c):
                 bad = args_named(g, f_ok[0], {0: 'writer', 1: 'header', 4: 'level'}) + args_named(g, f_ex[0], {0: 'writer', 1: 'header', 4: 'level'})
                 oc = q.outcomes(g, rsp.cs) if okm else {}
                 okd = okm and any(q.dom(g, e, f_ok[0].node) for e in oc.get('Ok', [])) and any(q.dom(g, e, f_ex[0].node) for e in oc.get('Err', []))
+                if not okm:
+                    # the same written as a match on the handler's result (`.map(|_| echo)` is written out by the view):
+                    # Ok(_) -> the echo is (part of) the request itself, Err(ex) -> that exception
+                    okm = q.sem_is_name(g, rsp, 'self') and (':' + v) in ''.join(rsp.proj)
+                    oke = exv.kind == 'call' and exv.cs is hc[0] and ':Err' in ''.join(exv.proj)
+                    oc = q.outcomes(g, hc[0])
+                    okd = any(q.dom(g, e, f_ok[0].node) for e in oc.get('Ok', [])) and any(q.dom(g, e, f_ex[0].node) for e in oc.get('Err', []))
                 ok = okm and oke and okf and not bad and okd
                 why = 'response %r, exception %r, function field %r, misnamed %s, on-its-edge %s' % (rsp, exv, ff, bad, okd)
             c.ob('get_reply/%s/format' % v, ok, "write reply: the handler result mapped to the echo decides: Ok(echo) -> format_reply(header, self.get_function(), echo, level), "
